@@ -79,6 +79,9 @@ def main():
     done = 0
     attempts = 0
     paths = list(FILES)
+    only = os.environ.get('AUTOMUT_FILES')
+    if only:
+        paths = [p for p in paths if p in only.split(',')]
     weights = [WEIGHTS.get(p, 2) for p in paths]
     while done < N and attempts < N * 40:
         attempts += 1
